@@ -36,6 +36,7 @@ type Doc struct {
 // LoadExamples reads every example input (examples/<cc>/*.yaml|json) and
 // every example output (examples/<cc>/out/*.json) as JSON text.
 func LoadExamples(repo string) (inputs, outputs []Doc, err error) {
+	repoRoot = repo
 	root := filepath.Join(repo, "examples")
 	err = filepath.Walk(root, func(p string, info os.FileInfo, e error) error {
 		if e != nil || info.IsDir() {
@@ -120,6 +121,10 @@ func CrossAddons(inputs []Doc) []Doc {
 	}
 	sort.Strings(ccs)
 	var out []Doc
+	// old spellings a regime rewrites when a document is loaded (migration tables in its sources)
+	if repoRoot != "" {
+		out = append(out, legacyDocs(repoRoot, best)...)
+	}
 	for _, cc := range ccs {
 		base := best[cc]
 		for _, ad := range tax.AllAddonDefs() {
